@@ -112,7 +112,9 @@ class Driver:
             nsetup = (1 if ext and known else 0) + (1 if route and self.version < 9 else 0)
         self.end(("send", rid, KIND[mkind], mdst, nsetup))
 
-    def reply(self, enq, busy_variant=0):
+    def reply(self, enq, busy_variant=0, settle=True):
+        """settle=False: the response is handled but the waiting coroutine has not resumed yet when the next
+        event arrives (a confirmation right behind the response in the same read)"""
         import bellows.types as t
         if self.pending_cmd is None:
             return False
@@ -129,7 +131,8 @@ class Driver:
                 st = ([t.sl_Status.FAIL, t.sl_Status.INVALID_STATE, t.sl_Status.NOT_JOINED] if v14
                       else [t.EmberStatus.ERR_FATAL, t.EmberStatus.NETWORK_DOWN, t.EmberStatus.DELIVERY_FAILED])[busy_variant % 3]
             fut.set_result([st, t.uint8_t(0x55)])
-            self.loop.settle()
+            if settle:
+                self.loop.settle()
             self.end(("reply", rid, enq))
         else:
             if name == "getExtendedTimeout":
@@ -227,6 +230,21 @@ def run_script(version, script):
                 rid += 1
             elif k == "reply":
                 d.reply(op[1], op[2] if len(op) > 2 else 0)
+            elif k == "burst":
+                # the send command's response and the confirmation of that very message in ONE read: both frames are
+                # handled before the waiting coroutine resumes
+                if d.pending_cmd is not None and d.pending_cmd[1] in SENDCMDS:
+                    rid_b = d.pending_cmd[0]
+                    e = [x for st in d.steps for x in st if x[0] == "send" and x[1] == rid_b][-1:]
+                    if d.log[d.mark:]:
+                        e = [x for x in d.log[d.mark:] if x[0] == "send" and x[1] == rid_b][-1:] or e
+                    d.reply(op[1], 0, settle=False)
+                    if e:
+                        d.confirm(e[0][3], e[0][4], op[2])
+                    else:
+                        d.loop.settle()
+                else:
+                    d.reply(op[1], 0)
             elif k == "confirm":
                 # confirm the n-th request that has put a send command on the wire (or a foreign tag)
                 sends = [e for st in d.steps for e in st if e[0] == "send" and e[2] == 0]
@@ -275,7 +293,7 @@ class Check(PropertyCheck):
     case_type = "(list (N * N * N * N * N))"
     shard = 200
     rule = ("concurrent packets (unicast with/without source route and extended timeout, IEEE-addressed, multicast, broadcast) x enqueue-"
-            "status sequences (accepted, each of the three busy statuses, several refusals) x confirmation timing (before/after the enqueue "
+            "status sequences incl. response and confirmation in one read (accepted, each of the three busy statuses, several refusals) x confirmation timing (before/after the enqueue "
             "reply), failure, duplication, foreign tag / destination, absence (timeout) x caller cancellation x protocol versions 4, 8, 13, 14 "
             "(thorough: 4..14); non-trivial = more than one packet or a non-accepted status; distinct by (version, script)")
     assumptions = ["zigpy.util.Requests is the harness re-implementation (the installed zigpy no longer ships it)",
@@ -310,6 +328,12 @@ class Check(PropertyCheck):
                 [("send", "unicast", 0x1000, False, False), ("reply", 0), ("confirm", 0, 1, 3), ("confirm", 0, 0, 0)],
                 # a confirmation carrying the (destination, tag) of a request that is still waiting for the lock
                 [("send", "ieee", 0x1002, True, False), ("send", "ieee", 0x1003, True, False), ("reply", 0, 1), ("confirm", 1, 1, 2)],
+                # response and confirmation back to back in one read (success / failure), also behind a busy retry
+                [("send", "unicast", 0x1000, False, False), ("burst", 0, 1)],
+                [("send", "unicast", 0x1000, False, False), ("burst", 0, 0)],
+                [("send", "unicast", 0x1001, True, True), ("reply", 0), ("reply", 0), ("burst", 0, 1)],
+                [("send", "unicast", 0x1000, False, False), ("reply", 1, 0), ("timer",), ("burst", 0, 1)],
+                [("send", "unicast", 0x1000, False, False), ("send", "unicast", 0x1001, False, False), ("burst", 0, 1), ("burst", 0, 0)],
                 [("send", "unicast", 0x1000, False, False), ("cancel", 0)],
                 [("send", "unicast", 0x1000, False, False), ("reply", 0), ("cancel", 0), ("confirm", 0, 1, 0)],
                 [("send", "unicast", 0x1000, False, True), ("send", "unicast", 0x1000, False, False), ("cancel", 0), ("reply", 0)],
@@ -325,8 +349,10 @@ class Check(PropertyCheck):
                         dst = rng.choice([0x1000, 0x1001, 0x1002, 0x4444]) if kind == "unicast" else \
                             rng.choice([0x1002, 0x1003]) if kind == "ieee" else 0x0033
                         s.append(("send", kind, dst, rng.random() < 0.4, rng.random() < 0.4))
-                    elif x < 0.6:
+                    elif x < 0.52:
                         s.append(("reply", rng.choice([0, 0, 0, 1, 1, 2]), rng.randrange(3)))
+                    elif x < 0.6:
+                        s.append(("burst", rng.choice([0, 0, 1, 2]), rng.choice([1, 1, 0])))
                     elif x < 0.82:
                         s.append(("confirm", rng.choice([0, 1, 2, "foreign"]), rng.choice([1, 1, 0]), rng.choice([0, 0, 0, 1, 2, 3])))
                     elif x < 0.94:
@@ -346,6 +372,8 @@ class Check(PropertyCheck):
         return {k: v for k, v in case.items() if not k.startswith("_")}
 
     def model_input(self, case):
+        if any(x[0] == "burst" for x in case["script"]):
+            return None        # the model settles between events; back-to-back frames are judged by the predicate
         out = []
         for e in case["_events"]:
             if e[0] == "send":
